@@ -123,7 +123,7 @@ static int pw_load(struct module_data *m, HIO_HANDLE *h, const int start)
 
 	mod->trk = mod->chn * mod->pat;
 
-	snprintf(mod->name, XMP_NAME_SIZE, "%s", (char *)mh.name);
+	snprintf(mod->name, XMP_NAME_SIZE, "%.20s", (char *)mh.name);
 	snprintf(mod->type, XMP_NAME_SIZE, "%s", name);
 	MODULE_INFO();
 
